@@ -28,6 +28,19 @@ const (
 const repoModPath = "github.com/la5nta/wl2k-go"
 
 func heapClass(key string) int {
+	root := key
+	if i := strings.LastIndex(key, "|"); i >= 0 {
+		root = key[:i]
+	}
+	if strings.HasPrefix(root, "map:") {
+		return clsMap
+	}
+	rootClassMu.Lock()
+	cls, ok := rootClassReg[root]
+	rootClassMu.Unlock()
+	if ok {
+		return cls
+	}
 	switch {
 	case strings.HasPrefix(key, "map:"):
 		return clsMap
